@@ -45,7 +45,7 @@ var c15Docs = []string{
 	`<a/>`, `<a></a>`, `<a x="1"/>`, `<a>t</a>`, `<a x="1">t</a>`, `<a><b>1</b><b>2</b></a>`, `<a>t<b/>u</a>`,
 	`<?xml version="1.0"?><a><!-- c --><b x='y'>z</b></a>`, `<ns:a xmlns:ns="u"><ns:b ns:k="v"/></ns:a>`,
 	`<a><![CDATA[x<y]]></a>`, `<a>&lt;&amp;&#x41;</a>`, `<!DOCTYPE a><a><?pi d?></a>`, `<stream:stream xmlns:stream="s"><b/>`,
-	"<a>\n <b>1</b>\n</a>\n<c/>", `<a><b><c><d>deep</d></c></b></a>`,
+	"<a>\n <b>1</b>\n</a>\n<c/>", `<a><b><c><d>deep</d></c></b></a>`, `<doc>12<a>1</a><!-- c -->true<b x="2.5">-7.25</b></doc>`,
 }
 var c15Json = []string{
 	`{}`, `{"a":1}`, `{"a":"x","b":[1,"y",{"c":null}]}`, `[1,{"a":2}]`, `{"a":"br{ace}s \" \\"}`, `{"a":{"b":{"c":[[]]}}}`,
@@ -227,6 +227,7 @@ func runDecoders(b []byte) []func() decRes {
 		mk("NewMapXmlReader", func() (interface{}, error) { m, e := mxj.NewMapXmlReader(bytes.NewReader(b)); return m, e }),
 		mk("NewMapXmlReaderRaw", func() (interface{}, error) { m, _, e := mxj.NewMapXmlReaderRaw(bytes.NewReader(b)); return m, e }),
 		mk("NewMapXmlSeq", func() (interface{}, error) { m, e := mxj.NewMapXmlSeq(b); return m, e }),
+		mk("NewMapXmlSeqCast", func() (interface{}, error) { m, e := mxj.NewMapXmlSeq(b, true); return m, e }),
 		mk("NewMapXmlSeqReader", func() (interface{}, error) { m, e := mxj.NewMapXmlSeqReader(bytes.NewReader(b)); return m, e }),
 		mk("NewMapXmlSeqReaderRaw", func() (interface{}, error) { m, _, e := mxj.NewMapXmlSeqReaderRaw(bytes.NewReader(b)); return m, e }),
 		mk("NewMapFormattedXmlSeq", func() (interface{}, error) { m, e := mxj.NewMapFormattedXmlSeq(b); return m, e }),
@@ -554,8 +555,8 @@ func runC15(cfg runCfg) error {
 		half = 1
 	}
 	run := newRun("C15", cfg.out, cfg.seed, 2*half, "", "",
-		"byte inputs: every truncation of 27 short XML / JSON documents, 1-3 local corruptions (replace / delete / insert / duplicate / stray end tag, brace, "+
-			"comment or CDATA opener, NUL and invalid UTF-8 bytes) of short and generated documents, each fed to 15 decoder entry points (XML, sequence-XML, JSON, reader, raw, bulk, gob, BeautifyXml) "+
+		"byte inputs: every truncation of 28 short XML / JSON documents, 1-3 local corruptions (replace / delete / insert / duplicate / stray end tag, brace, "+
+			"comment or CDATA opener, NUL and invalid UTF-8 bytes) of short and generated documents, each fed to 16 decoder entry points (XML, sequence-XML, JSON, reader, raw, bulk, gob, BeautifyXml) "+
 			"in a worker process under a 10 s timeout; argument strings: hostile paths (empty segments, negative / huge / malformed indexes, unmatched brackets), sub-keys, key pairs and new values "+
 			"on random Maps with odd and empty keys for every query and update method; non-trivial = rejected input / error result; distinct by input hash")
 	run.headers = make([]string, 2*half)
